@@ -223,3 +223,23 @@ Theorem c18_broadcast_for_contact_partial : forall rl allowed base m,
   o_text o = m_text m /\ o_atts o = m_atts m /\ o_qrs o = m_qrs m.
 Proof. exact for_contact_no_localization. Qed.
 Print Assumptions c18_broadcast_for_contact_partial.
+
+(* router case arguments against the statement, which knows no length rule ("the first of these that is the base
+   language or has a non-empty translation wins", quantified over translations of a different length than the base).
+   FULL STATEMENT:  forall contact_lang allowed base args tr,
+                      case_arguments contact_lang allowed base args tr = fst (get_text contact_lang allowed base args tr).
+   It is false of the code: a translation of another length is replaced by the base arguments (c18_router_args above
+   states what the code does) — known finding router-arguments:translation-of-other-length-replaced-by-base. *)
+Theorem c18_router_args_partial : forall contact_lang allowed base args tr,
+  length (fst (get_text contact_lang allowed base args tr)) = length args ->
+  case_arguments contact_lang allowed base args tr = fst (get_text contact_lang allowed base args tr).
+Proof. exact case_arguments_partial. Qed.
+Print Assumptions c18_router_args_partial.
+
+Theorem c18_router_args_refuted :
+  exists contact_lang allowed base args tr,
+    case_arguments contact_lang allowed base args tr <> fst (get_text contact_lang allowed base args tr)
+    /\ case_arguments contact_lang allowed base args tr = args
+    /\ item_translation tr (env_default allowed) <> [].
+Proof. exact case_arguments_refuted. Qed.
+Print Assumptions c18_router_args_refuted.
